@@ -33,6 +33,7 @@ type File struct {
 	Decoder string // ply, stl, spz, pts, splat
 	Data    []byte
 
+	Medium    bool // member of the medium-file sub-scope (medium.go): selected cut positions, compact replay case
 	Ascii     bool // the body (from BodyStart) is text: cuts there are token boundaries
 	BodyStart int  // every length below BodyStart is a cut (headers and binary files: BodyStart = len)
 
@@ -69,6 +70,9 @@ func (f *File) class(cut int) string {
 	} else if f.Ascii && cut >= f.BodyStart && (f.Data[cut] == '\n' || (f.Data[cut] == '\r' && cut+1 < len(f.Data) && f.Data[cut+1] == '\n')) {
 		b = "line-complete-newline-cut"
 	}
+	if f.Medium {
+		b += nearBufferBoundary(cut)
+	}
 	return f.ID + "/" + f.section(cut) + "/" + b
 }
 
@@ -78,6 +82,9 @@ func isWS(b byte) bool { return b == ' ' || b == '\n' || b == '\r' || b == '\t' 
 // boundary (every position that is not strictly inside a token, so also between CR and LF) for text bodies. midToken lists the remaining lengths
 // of a text body (inside a number), which are outside the property's quantifier.
 func (f *File) cuts() (cuts, midToken []int) {
+	if f.Medium {
+		return f.mediumCuts()
+	}
 	n := len(f.Data)
 	for i := 0; i < n; i++ {
 		if i < f.BodyStart || !f.Ascii {
@@ -598,5 +605,6 @@ func family(thorough bool) (files []File, errs []string) {
 		add(ptsFile(7, 12), nil)
 		add(splatFile(6), nil)
 	}
+	mediumFamily(thorough, add)
 	return
 }
